@@ -51,6 +51,14 @@ def at_threshold_record(rng, s, j):
     return gen.build_record(rng, s, j, dt, n, rc, ic, t0=0, gaps=rng.choice([0, 0, 1]), pre=0, post=1)
 
 
+def zone_offset_s(tz):
+    """UTC = wall clock + this, for the zones this check declares"""
+    if tz == "UTC":
+        return 0
+    assert tz.startswith("Etc/GMT"), tz
+    return int(tz[len("Etc/GMT"):]) * 3600
+
+
 def origins(rng, dt, k, n=8):
     out = [0, 3600 * 24 * 365 * 30 // dt * dt]
     # around binade changes of epoch/3600: epoch = 3600 * 2^m
@@ -136,10 +144,23 @@ def run(ctx):
                     and (not m["strict"] or im["pairs"] == m["pairs"]))
             ctx.obligation(ob_corr, same)
             if base is None:
-                base = (e0, im, inp)
+                base = (e0, im, inp, t0 + zone_offset_s(tz))
                 ctx.sample({"record": rec.describe(), "s": s, "j": j, "origins": [r[0] for r in runs][:8], "zones": zones}, limit=2)
                 if not same:
                     ctx.corr_break(ob_corr, {"input": inp, "impl": im, "model": m})
+                continue
+            # "by exactly that amount": the instants land where the typed wall-clock times and the declared zone put them
+            # (POSIX sign: `Etc/GMT+5` is five hours BEHIND UTC, so its wall clock is UTC - 5 h and UTC = wall clock + 5 h)
+            amount = (t0 + zone_offset_s(tz)) - base[3]
+            if e0 - base[0] != amount:
+                ctx.obligation(ob_rel, False)
+                ctx.violation("impl-violation", "c07Holds", {
+                    "input": {"first": base[2], "second": inp, "shift_s": amount},
+                    "impl": {"first_instant_of_first": base[0], "first_instant_of_second": e0},
+                    "oracle": {"name": "c07Holds", "result": False,
+                               "witness": {"differs_on": ["the record is not shifted by the difference of the typed times and of the zone offsets"],
+                                           "origin_a": base[0], "origin_b": e0, "zone_b": tz, "expected_shift_s": amount,
+                                           "observed_shift_s": e0 - base[0]}}})
                 continue
             sh = shift_tables(base[1], e0 - base[0])
             strict = m["outcome"] == "ok" and m["strict"]
